@@ -58,6 +58,16 @@ func checkEngine(id, tier, replay string) int {
 			live = "live:"
 			rep.Count("live_sessions_"+typ, 1)
 		}
+		if (typ == "asa" || typ == "ios") && (i/len(types))%8 == 5 && o.Exec == nil && o.Frame == nil && o.Inconclusive == "" && !o.Crashed {
+			// Complete live approve through the CLI simulator backed by
+			// the model; class keys as in file mode.
+			o = runConvLiveCisco(env, g)
+			rep.Count("live_commands_received", o.LiveCommands)
+			rep.Count("live_joined_packets", o.LiveJoined)
+			rep.Count("live_device_notices_shown", o.LiveNotices)
+			rep.Count("live_second_compares", o.LiveCompares)
+			rep.Count("live_sessions_"+typ, 1)
+		}
 		nontrivial := o.Nontrivial && (id != "C08" || len(o.Commands) >= 2)
 		rep.Case(run.Hash(live, g.Device, fmt.Sprint(g.Files)), nontrivial)
 		if o.Crashed {
